@@ -37,6 +37,13 @@ def one_case(rng, tier):
     if not plain and rng.random() < 0.5:
         nodes.append({'id': 'm0', 'op': 'map', 'ups': [last], 'f': 'inc'})
         last = 'm0'
+    elif not plain and rng.random() < 0.4:
+        # a diamond: every element reaches the node twice within one call, with the very same metadata list
+        nodes.append({'id': 'ma', 'op': 'map', 'ups': [last], 'f': 'inc'})
+        nodes.append({'id': 'mb', 'op': 'map', 'ups': [last], 'f': 'dbl'})
+        nodes.append({'id': 'un', 'op': 'union', 'ups': ['ma', 'mb']})
+        last = 'un'
+    feeder = last
     nodes.append({'id': 'lt', 'op': 'latest', 'ups': [last]})
     last = 'lt'
     if not plain and rng.random() < 0.5:
@@ -52,6 +59,10 @@ def one_case(rng, tier):
     for p in range(rng.choice([1, 1, 2, 3])):
         prods.append([[rng.choice(aprogs.GAP_GRID + [-1, -2, -3, -4, 0.5, 0.5]), 'n0', (None if plain and rng.random() < 0.15 else rng.randrange(50)), 1]
                       for _ in range(rng.randrange(1, 8))])
+    if rng.random() < 0.2:
+        # input stops by the node being disconnected from its upstream (possibly while the consumer is still busy with an
+        # earlier element): what it has received by then must still come out
+        prods[0].append([rng.choice([0, 0, -1, -2, 0.25, 0.5]), '!disconnect', [feeder, 'lt'], 0])
     return {'prog': prog, 'producers': prods, 'awaiting': rng.random() < 0.5}
 
 
@@ -97,6 +108,8 @@ def check_case(case, counters, sets):
     ar.interesting = len(dl) < len(arr) or len(arr) >= 3
     sets.setdefault('interleaving_signatures', set()).add(asyncrun.signature(ar.log))
     counters['events_observed'] = counters.get('events_observed', 0) + len(ar.log.ev)
+    if any(e[2] == 'EDIT' for e in ar.log.ev):
+        counters['runs_with_disconnect_of_the_input'] = counters.get('runs_with_disconnect_of_the_input', 0) + 1
     counters['elements_skipped_by_latest'] = counters.get('elements_skipped_by_latest', 0) + max(0, len(arr) - len(dl))
     ar.arr, ar.dl = arr, dl
     return ar, viols
